@@ -8,6 +8,11 @@ use std::convert::TryFrom;
 pub const MP: usize = 24;
 
 #[cfg(kani)]
+fn set_scan(n: usize) { crate::stubs_bv::set_scan(n); }
+#[cfg(not(kani))]
+fn set_scan(_n: usize) {}
+
+#[cfg(kani)]
 fn set_width(w: usize) { crate::stubs::set_sparse_width(w); }
 #[cfg(not(kani))]
 fn set_width(_w: usize) {}
@@ -42,6 +47,8 @@ pub fn any_positions(n: usize, m: usize, multiset: bool) -> Ref {
 
 pub fn build(r: &Ref, w: usize, multiset: bool) -> SparseVector {
     set_width(w);
+    // high.len() = ones + ceil(universe / 2^w)
+    set_scan(r.m + (r.n >> w) + (if r.n & ((1usize << w) - 1) != 0 { 1 } else { 0 }));
     let mut b = if multiset { SparseBuilder::multiset(r.n, r.m) } else { SparseBuilder::new(r.n, r.m).unwrap() };
     let mut k = 0;
     while k < r.m { b.set(r.p[k]); k += 1; }
